@@ -44,6 +44,11 @@ def anchored():
         for f in d['anchors']['files']:
             if os.path.exists(os.path.join(REPO, f)) and 'rtmidi' not in f:
                 m.setdefault(f, []).append(d['id'])
+    # checks that exercise a module although the property's anchor list does not name it
+    for f, extra in (('mido/midifiles/tracks.py', ['C16']), ('mido/frozen.py', ['C12']), ('mido/messages/checks.py', ['C02', 'C09']),
+                     ('mido/parser.py', ['C10', 'C11'])):
+        if f in m:
+            m[f] += [p for p in extra if p not in m[f]]
     return m
 
 
